@@ -111,6 +111,8 @@ pub fn generate(rng: &mut Rng, thorough: bool) -> (C11Scenario, String) {
         rng.range(1, 6)
     } else if size_class < 96 {
         rng.range(7, 12)
+    } else if thorough && rng.pct(25) {
+        rng.range(65, 90) // beyond the 64-entry thresholds
     } else if thorough {
         rng.range(17, 40)
     } else {
